@@ -587,6 +587,37 @@ func runCell(c cellID, ord, draw int) {
 		}
 	}
 
+	// ---- long run on the same context: the sequence number crosses its
+	// byte boundaries (256, 512; 65536 once per AEAD in the thorough tier),
+	// every ciphertext still compared with the reference
+	if draw == 0 {
+		upto := 600
+		if lib.Thorough() && c.mode == ref.ModeBase && c.kdf == hpke.KDF_HKDF_SHA256 && c.k.id == hpke.KEM_X25519_HKDF_SHA256 {
+			upto = 66000
+		}
+		for i := len(order); i < upto; i++ {
+			pt, aad := r.Bytes(i%3), r.Bytes(i%2)
+			var ct, got []byte
+			var err, oerr error
+			if pn := lib.Try("hpke.Sealer.Seal:long-run", journal(pt, aad), func() { ct, err = sealer.Seal(pt, aad) }); pn != nil || err != nil {
+				viol("C07:seal-error:"+aeadNames[c.aead], "seq", i, "err", err, "panic", fmt.Sprint(pn != nil))
+				return
+			}
+			want, _ := expS.Seal(aad, pt)
+			lib.Count("seal-compared")
+			if !lib.Eq(ct, want) {
+				viol("C07:seal:"+aeadNames[c.aead], "seq", i, "pt", pt, "aad", aad, "got", ct, "want", want, "class", "long-run")
+				return
+			}
+			if pn := lib.Try("hpke.Opener.Open:long-run", journal(ct, aad), func() { got, oerr = opener.Open(ct, aad) }); pn != nil || oerr != nil || !lib.Eq(got, pt) {
+				viol("C07:open:"+aeadNames[c.aead], "seq", i, "err", oerr, "got", got, "want", pt, "class", "long-run")
+				return
+			}
+			lib.Count("open-compared")
+		}
+		lib.Count("long-run-contexts")
+	}
+
 	// ---- exports
 	ectxs := [][]byte{nil, {}, r.Bytes(1), r.Bytes(64), r.Bytes(300)}
 	for _, ec := range ectxs {
